@@ -38,7 +38,56 @@ type tracer struct {
 	terminate      chan struct{}
 	done           chan struct{}
 	subscribers    []chan ITrace
-	senders        sync.WaitGroup
+	senders        senderGroup
+}
+
+// senderGroup counts the registered senders. Unlike a sync.WaitGroup it may be
+// joined again while, or after, somebody waits for it to run empty: a sender that
+// registers at the very moment the last one leaves (a flow started while the
+// instance is being cancelled) made WaitGroup panic with "WaitGroup is reused
+// before previous Wait has returned".
+type senderGroup struct {
+	mu    sync.Mutex
+	n     int
+	empty chan struct{} // closed when n drops to zero; nil while nobody waits
+}
+
+func (g *senderGroup) add() {
+	g.mu.Lock()
+	g.n++
+	g.mu.Unlock()
+}
+
+// Done implements ISenderHandle
+func (g *senderGroup) Done() {
+	g.mu.Lock()
+	g.n--
+	if g.n < 0 {
+		g.mu.Unlock()
+		panic("tracing: sender handle released twice")
+	}
+	if g.n == 0 && g.empty != nil {
+		close(g.empty)
+		g.empty = nil
+	}
+	g.mu.Unlock()
+}
+
+// wait returns at a moment at which no sender is registered
+func (g *senderGroup) wait() {
+	for {
+		g.mu.Lock()
+		if g.n == 0 {
+			g.mu.Unlock()
+			return
+		}
+		if g.empty == nil {
+			g.empty = make(chan struct{})
+		}
+		empty := g.empty
+		g.mu.Unlock()
+		<-empty
+	}
 }
 
 func NewTracer(ctx context.Context) ITracer {
@@ -91,7 +140,7 @@ func (t *tracer) run(ctx context.Context) {
 			termination.Do(func() {
 				go func() {
 					// Wait until all senders have terminated
-					t.senders.Wait()
+					t.senders.wait()
 					// Send an internal termination message
 					t.terminate <- struct{}{}
 				}()
@@ -150,7 +199,7 @@ func (t *tracer) Send(trace ITrace) {
 }
 
 func (t *tracer) RegisterSender() ISenderHandle {
-	t.senders.Add(1)
+	t.senders.add()
 	return &t.senders
 }
 
